@@ -162,9 +162,18 @@ def bookkeeping_table(ctx, key, rid, fields):
     from ..expr import Inliner
     masks = [fields[n]["mask"] for n in rights]
     extra = [v["mask"] for n, v in fields.items() if "castle_move" in n][:1]
+    # a plausible move underneath the flags (e2-e4 by a white pawn, no e.p. squares): assertions of generator
+    # invariants such as `source != target` must not rule the whole table out
+    base = 0
+    no_sq = prog.const_value("inkayaku_board::board::constants::NO_SQUARE")
+    for name_, val_ in (("get_source_square", 52), ("get_target_square", 36), ("get_piece_moved", 1),
+                        ("get_previous_en_passant_square", no_sq), ("get_next_en_passant_square", no_sq)):
+        fl = fields.get(name_)
+        if fl is not None and isinstance(val_, int):
+            base |= (val_ << fl["shift"]) & fl["mask"]
     dom = []
     for assign in product((0, 1), repeat=4):
-        v = sum(m for m, on in zip(masks, assign) if on)
+        v = base | sum(m for m, on in zip(masks, assign) if on)
         dom.append(v)
         for e in extra:
             dom.append(v | (e & -e))
@@ -341,16 +350,41 @@ def r3_castle_swap(ctx):
         return
 
     def summary(pe):
-        """[(accessor, op, arg params)] for each `*acc &= !x` / `*acc |= x` in order"""
+        """[(accessor, 'set' | 'clear', (mask parameter,))]: what the function does to each accessor's bitboard, read off
+        the final value written to it - evaluated for an empty and a full old bitboard with every mask parameter a
+        distinct single bit, so `x &= !a; x |= b`, `x = (x & !a) | b` and `x ^= a | b` (on squares known set / clear)
+        are told apart by what they do, not by how they are written"""
+        from ..semtable import evaluate, NeedVar, Opaque
         out = []
+        seq = {}
         for place, val, b in pe.writes:
-            if val[0] != "bin":
-                continue
+            seq.setdefault(place, []).append(val)      # (each `*x.rooks_ref() op= m` is a write of its own: they compose)
+        nargs = pe.f["args"] if isinstance(pe.f["args"], int) else len(pe.f["args"])
+        bit = {("param", i): 1 << i for i in range(2, nargs + 1)}
+        for place, vals in seq.items():
             acc = [x[1].rsplit("::", 1)[-1] for x in leaves(place) if x[0] == "call"]
-            op = val[1]
-            params = sorted({x[1] for x in leaves(val) if x[0] == "param"})
-            neg = any(x[0] == "un" and x[1] == "Not" for x in leaves(val))
-            out.append((acc[0] if acc else "?", "clear" if (op == "BitAnd" and neg) else "set" if op == "BitOr" else op, tuple(params)))
+
+            def vo(t, place=place):
+                if t == place:
+                    return "old"
+                if t in bit:
+                    return "p%d" % t[1]
+                return None
+            env = {"p%d" % k[1]: v for k, v in bit.items()}
+            try:
+                n0, n1 = 0, (1 << 64) - 1
+                for val in vals:
+                    n0, n1 = evaluate(val, vo, dict(env, old=n0)), evaluate(val, vo, dict(env, old=n1))
+            except (NeedVar, Opaque):
+                out.append((acc[0] if acc else "?", "?", ()))
+                continue
+            for k, v in sorted(bit.items()):
+                if n0 & v and n1 & v:
+                    out.append((acc[0] if acc else "?", "set", (k[1],)))
+                elif not (n0 & v) and not (n1 & v):
+                    out.append((acc[0] if acc else "?", "clear", (k[1],)))
+                elif (n0 & v) and not (n1 & v):
+                    out.append((acc[0] if acc else "?", "toggle", (k[1],)))
         return sorted(out)
     sm_, su_ = summary(pm), summary(pu)
     if not su_:
@@ -364,6 +398,9 @@ def r3_castle_swap(ctx):
                 ctx.extra["unmake_castle_delegation"] = {"permutation": perm}
     flip = sorted((a, "set" if o == "clear" else "clear" if o == "set" else o, p) for a, o, p in sm_)
     ok = flip == su_ and len(sm_) == 4
+    if any(o == "?" for _, o, _ in sm_ + su_):
+        ctx.lost(rid, "what make_castle / unmake_castle write to the rook and king bitboards (not a bitwise function of the old value and the mask parameters)")
+        return
     ctx.ob(rid, "unmake_castle-inverts-make_castle", ok,
            "" if ok else "make_castle does %s but unmake_castle does %s (expected the same squares with set/clear exchanged)" % (sm_, su_),
            ctx.where(fuk), sample={"make_castle": [list(x) for x in sm_], "unmake_castle": [list(x) for x in su_]})
@@ -414,6 +451,9 @@ def r4_saved_restored(ctx, fields, setters, pairing):
                     hit = [("call", t_["callee"].get("key")) for _, t_ in calls_ if t_["callee"].get("key") in getter_of]
                 for x in hit:
                     through.setdefault(getter_of[x[1]], {})[d["p"][1]["name"]] = core
+    if not saved:
+        ctx.lost(rid, "which board fields make_move saves into the move (no Move setter is given a field of the board)")
+        return
     undo = [f_ for f_ in saved if f_ in restored or "previous" in f_]
     called = {getter_of[t_["callee"].get("key")] for b_ in un["blocks"] if not b_["cleanup"] for t_ in [b_["term"]] if t_["k"] == "call" and t_["callee"].get("key") in getter_of}
     for fld in sorted(set(undo) | {f_ for f_ in restored}):
